@@ -127,7 +127,7 @@ PROPS["C10"] = dict(
         Job("shard_consolidate", engine="shard_consolidate", workers=(4, 4), cases=(50, 5000), time_s=(40, 700), **PURE),
     ],
     gates=dict(evaluations=(1500, 50000), distinct=(200, 1000),
-               counters={"setop_pairs": (1500, 50000), "consolidations": (150, 5000), "consolidations_that_merged": (50, 1000), "flagpair_1_2": (20, 200), "flagpair_2_1": (20, 200)}),
+               counters={"setop_pairs": (1500, 50000), "consolidations": (150, 5000), "consolidations_that_merged": (50, 1000), "consolidation_inputs_in_reexported_form": (200, 10000), "flagpair_1_2": (20, 200), "flagpair_2_1": (20, 200)}),
 )
 
 PROPS["C18"] = dict(
